@@ -119,14 +119,36 @@ def example_jobs(model, tier, config='le'):
     tu.add('void harness(void)\n{\n    use_udp = nondet_u8(); can_variant = (Avtp_CanVariant_t)nondet_uint(); vp_mc_i = nondet_size();\n'
            '    new_packet(nondet_int(), nondet_int());\n    VP_CANARY();\n}\n')
     repl = [g for v in LISTENER_GETTERS.values() for g in v] + ['Avtp_Can_GetPayload', 'recv', 'write', 'memcpy']
-    # (bounded unwinding fallbacks for this loop were tried twice - 64-byte datagrams / 5 unwindings and 48-byte datagrams / 4
+    # fallback when the loop contract cannot be attached to the message loop as written now: plain bounded model checking of the
+    # real listener with the real library inlined (no contract instrumentation), datagrams of at most VP_FB_DGRAM bytes
+    fb_src = ('#include <stdlib.h>\n#include <sys/types.h>\n#include <sys/socket.h>\n#include <unistd.h>\n#include <linux/can.h>\n#include "vp_env.h"\n'
+              'void perror(const char *s) { }\n'
+              'void *memcpy(void *d, const void *s, size_t n) { for (unsigned i = 0; i < 72; i++) if (i < n) ((unsigned char *)d)[i] = ((const unsigned char *)s)[i]; __CPROVER_assert(n <= 72, "C18: memcpy of at most one CAN FD frame"); return d; }\n'
+              '#define VP_FB_DGRAM 64\n'
+              'ssize_t recv(int fd, void *bufv, size_t cap, int flags) { unsigned char *b = bufv; ssize_t n = (ssize_t)nondet_size(); __CPROVER_assume(n >= -1 && n <= VP_FB_DGRAM && (size_t)n <= cap || n == -1);\n'
+              '    for (unsigned i = 0; i < VP_FB_DGRAM; i++) if ((ssize_t)i < n) b[i] = nondet_u8(); return n; }\n'
+              'ssize_t write(int fd, const void *bufv, size_t n) { __CPROVER_assert(__CPROVER_r_ok(bufv, n), "C18: frame handed to the CAN socket is readable"); ssize_t r = (ssize_t)nondet_size(); __CPROVER_assume(r >= -1 && r <= (ssize_t)n); return r; }\n'
+              'static uint8_t use_udp;\n'
+              '#define main vp_listener_main\n#include "acf-can/acf-can-listener.c"\n#undef main\n'
+              'void harness(void)\n{\n    use_udp = nondet_u8(); can_variant = (Avtp_CanVariant_t)nondet_uint();\n'
+              '    __CPROVER_assume(use_udp <= 1 && (unsigned)can_variant <= 1u);\n'
+              '    int r = new_packet(nondet_int(), nondet_int());\n'
+              '    __CPROVER_assert(r >= 0, "C18: receive path returns and can take the next datagram");\n    VP_CANARY();\n}\n')
+    fb = Job('examples/acf-can-listener/new_packet~bounded-fallback', fb_src,
+             ['src/avtp/Utils.c', 'src/avtp/Udp.c', 'src/avtp/CommonHeader.c', 'src/avtp/acf/Tscf.c', 'src/avtp/acf/Ntscf.c', 'src/avtp/acf/AcfCommon.c', 'src/avtp/acf/Can.c'],
+             no_dfcc=True, owners={'assert': ['C18'], 'safety': ['C18'], 'unwind': ['C18']},
+             function='acf-can-listener.c:new_packet', kind='example-fallback', config=config, includes=inc, timeout=2400, obj_bits=12,
+             unwind={'*repo*': 6, 'memcpy': 74, 'recv': 66}, solver='kissat', assumptions=ENV_ASSUME,
+             bounded='BOUNDED FALLBACK (loop contract not attachable): plain bounded model checking of the real listener and library, datagrams of at most 64 bytes '
+                     '(at most 3 ACF messages), loops unwound 6 times with unwinding assertions')
+    # (bounded unwinding fallbacks UNDER DFCC for this loop were tried twice - 64-byte datagrams / 5 unwindings and 48-byte datagrams / 4
     # unwindings - and did not finish in 30 and 40 minutes: when the message loop is rewritten so that the loop contract no longer
     # attaches, this obligation ends undecided)
     jobs.append(Job('examples/acf-can-listener/new_packet', tu.text(), LIBSRC, enforce='new_packet', replace=repl,
                     loop_contracts={'new_packet': [{'template': NP_LOOP, 'symbols': NP_SYMS}]},
                     owners={'post': ['C18'], 'safety': ['C18'], 'assigns': ['C18'], 'loop': ['C18']}, clause_map=dict(tu.tags),
                     function='acf-can-listener.c:new_packet', kind='example', config=config, includes=inc, timeout=1800,
-                    obj_bits=10, assumptions=ENV_ASSUME))
+                    obj_bits=10, assumptions=ENV_ASSUME, fallback=fb))
     # ------------------------------------------------------------------ C19: talker's per-frame builder
     tu = _gen(model, {'can': ['Avtp_Can_Init', 'Avtp_Can_SetField', 'Avtp_Can_GetAcfMsgLength']})
     tu.add('size_t vp_i, vp_j, vp_extra;\n#include "can.h"\n' + ENV + WRITE_CONTRACT)
